@@ -76,10 +76,11 @@ theorem session_bytes_decompose (S : Session) (z : ZlibOps) (E : Bytes → Bytes
   have hinv := wireInv_exec S.lp S.loginSteps
   obtain ⟨hw, -⟩ := C10Wire.wire_prefix_plain_suffix_cipher S.lp S.loginSteps z E S.ids
   obtain ⟨hpre, heq⟩ := playReplies_facts S hR
-  refine ⟨?_, rfl, hw, wireRun_split z E S.ids (outbox S) S.lp.secret hinv.sw, ?_, ?_, hpre, heq⟩
+  refine ⟨?_, by simp only [clientBytes, clientBytesWith, clientChunks], hw,
+    wireRun_split z E S.ids (outbox S) S.lp.secret hinv.sw, ?_, ?_, hpre, heq⟩
   · show clientBytesWith .carry z E S = _
     rw [clientBytesWith_ok .carry z E S hport hname, playWire_carry z E S hplay]
-    rfl
+    simp only [playFrames, m, pf]
   · show (if (loginEnd S).encrypted then some S.lp.secret else none) = _
     rw [loginEnd_encrypted]; rfl
   · show (exec S.lp .init S.loginSteps).threshold = _
@@ -187,8 +188,8 @@ theorem layer_servers_agree (S : Session) (z : Zlib) (EK : Bytes → Bytes → B
     (∃ r name, HsWire.serverRecv segsH = .ok r ∧ Neg.loginName S.conn = some name ∧
       r.hs = ⟨S.proto, S.conn.host, S.conn.port, 2⟩ ∧ r.decoded S.lsId = [.loginStart name] ∧
       r.err = none) ∧
-    (let r := serverRecover z.toZlibOps EK (S.lp.rsa.dec priv) S.ids.encResp (modesOf (outbox S))
-        segsL
+    (let r :=
+        serverRecover z.toZlibOps EK (S.lp.rsa.dec priv) S.ids.encResp (modesOf (outbox S)) segsL;
       r.packets = (outbox S).map (wirePkt S.ids) ∧ r.key = (finalMode S).cipher ∧ r.err = none ∧
         r.rest = []) ∧
     (match (finalMode S).cipher with
@@ -219,8 +220,7 @@ theorem layer_servers_agree (S : Session) (z : Zlib) (EK : Bytes → Bytes → B
       rw [events_loginSteps]; exact hkey
     obtain ⟨a, b, c, d⟩ := C10Wire.server_recovers_outbox S.lp S.loginSteps z EK S.ids priv segsL
       hids hkey' hokL hL
-    refine ⟨a, ?_, b, c⟩
-    rw [d]
+    refine ⟨a, d.trans ?_, b, c⟩
     show _ = if (loginEnd S).encrypted then some S.lp.secret else none
     rw [loginEnd_encrypted]; rfl
   · have hwire := playWire_carry z.toZlibOps (EK S.lp.secret) S hplay
@@ -299,7 +299,7 @@ theorem cipher_continues_across_login_to_play (S : Session) (z : ZlibOps) (E : B
   rw [clientBytesWith_ok .carry z E S hport hname, playWire_carry z E S hplay, hcipher]
   have hw' : wireBytes z E S.lp.secret S.ids (outbox S) =
       (plainPart.map (frameOfSent z S.ids)).flatten ++ (cfb8Enc E S.lp.secret loginTail).2 := hw
-  simp only [hw', c1, hreg, List.append_assoc]
+  simp only [hw', c1, hreg, List.append_assoc, play]
 
 /-- (c, negative witness) Restarting the cipher at the boundary is detected.  On the concrete
 session `demoSession` (protocol 757 ids; encryption, then threshold 8, a plugin request, success;
@@ -311,7 +311,7 @@ handshake and the login frames but NOT the play replies out of them. -/
 theorem cipher_restart_detected :
     demoServer demoSession [demoBytes .carry demoSession] = expected demoSession "Steve" ∧
       demoBytes .restartCipher demoSession ≠ demoBytes .carry demoSession ∧
-      (demoBytes .restartCipher demoSession).take 54 = (demoBytes .carry demoSession).take 54 ∧
+      (demoBytes .restartCipher demoSession).take 48 = (demoBytes .carry demoSession).take 48 ∧
       (demoServer demoSession [demoBytes .restartCipher demoSession]).login =
         (expected demoSession "Steve").login ∧
       (demoServer demoSession [demoBytes .restartCipher demoSession]).replies ≠
@@ -345,10 +345,11 @@ theorem threshold_continues_into_play (S : Session) (z : ZlibOps) :
   · intro q _ pay
     refine ⟨rfl, ?_, ?_, ?_⟩
     · intro h; rw [h]; rfl
-    · intro t h hc; rw [h]; simp only [frameBody, hc, and_self, if_true]
+    · intro t h hc; rw [h]; simp only [frameBody]; rw [if_pos hc]
     · intro t h hc
       rw [h]
-      simp only [frameBody, hc, if_false, HsWire.encVarInt_zero]
+      simp only [frameBody]
+      rw [if_neg hc, HsWire.encVarInt_zero]
       rfl
 
 /-- (d, negative witness) Forgetting the threshold at the boundary is detected.  On `demoSession`
@@ -359,7 +360,7 @@ the login frames, then raises in the play phase and delivers no reply.  A sessio
 announcement (`demoPlainSession`) is recovered with the flag off throughout. -/
 theorem threshold_forgotten_detected :
     demoBytes .forgetThreshold demoSession ≠ demoBytes .carry demoSession ∧
-      (demoBytes .forgetThreshold demoSession).take 54 = (demoBytes .carry demoSession).take 54 ∧
+      (demoBytes .forgetThreshold demoSession).take 48 = (demoBytes .carry demoSession).take 48 ∧
       (demoServer demoSession [demoBytes .forgetThreshold demoSession]).login =
         (expected demoSession "Steve").login ∧
       (demoServer demoSession [demoBytes .forgetThreshold demoSession]).replies = [] ∧
@@ -419,13 +420,13 @@ example : ((clientChunks Zlib.ident.toZlibOps (fun _ => [0]) demoSession).1.map 
      "011107101112131415161718191a1b1c1d1e1f020709", "04", "00020500", "0a",
      "090f0000000000000001", "03", "000007", "0a", "090f0000000000000002"] := by decide +kernel
 
-/-- … and the real thing under the toy block function: 54 plaintext bytes (first frames and
+/-- … and the real thing under the toy block function: 48 plaintext bytes (first frames and
 encryption response), then ONE cipher stream over the plugin response and the three play frames. -/
 example : hexOfBytes (demoBytes .carry demoSession) =
     "1000f505096c6f63616c686f737463dd02" ++ "0700055374657665" ++
     "16011107101112131415161718191a1b1c1d1e1f020709" ++
     "13aabbb364" ++ "d472a0382ab18cb7228df96722c0e08e11e80df602c0719a530e" ∧
-    (demoBytes .carry demoSession).drop 54 =
+    (demoBytes .carry demoSession).drop 48 =
       (cfb8Enc (toyEK demoLP.secret) demoLP.secret
         ([0x04, 0x00, 0x02, 0x05, 0x00] ++
           [0x0a, 0x09, 0x0f, 0, 0, 0, 0, 0, 0, 0, 1, 0x03, 0x00, 0x00, 0x07,
@@ -471,7 +472,7 @@ example : hexOfBytes (demoBytes .carry demoPlainSession) =
 /-- A refused login never reaches play: the stream ends behind the encryption response, there is
 no play part whatever the server "sends" afterwards, and the server sees the stream end. -/
 example : ¬ ReachesPlay demoRefused ∧
-    demoBytes .carry demoRefused = (demoBytes .carry demoSession).take 54 ∧
+    demoBytes .carry demoRefused = (demoBytes .carry demoSession).take 48 ∧
     (demoServer demoRefused [demoBytes .carry demoRefused]).replies = [] := by decide +kernel
 
 /-- A first write phase that raises: port 65536 — nothing at all is sent; no login name — the
